@@ -621,6 +621,10 @@ M('C08', 'dispatch-factory-gets-root-class', TY, '    def __call__(cls, packet=N
   '    @staticmethod\n    def _makeobj(cls):\n        obj = object.__new__(cls)\n        obj.__init__()\n        return obj\n\n    def __call__(cls, packet=None):  # NOQA\n', 'C08.g', more=[(TY, '            obj = _makeobj(ncls)\n', '            obj = MetaDispatchable._makeobj(rcls)\n'), (TY, '            obj = _makeobj(cls)\n', '            obj = MetaDispatchable._makeobj(cls)\n')])
 M('C08', 'skesk-remainder-minus-1', PK, '        ctend = self.header.length - len(self.s2k)\n',
   '        ctend = self.header.length - len(self.s2k) - 1\n', 'C08.d')
+M('C08', 'elg-alias-guard-falls-through', FL, '        if not self.s2k:\n            self.x = MPI(packet)\n\n            if self.s2k.usage == 0:\n                self.chksum = packet[:2]\n                del packet[:2]\n\n        else:\n            self.encbytes = packet\n\n    def decrypt_keyblob(self, passphrase):\n        kb = super(ElGPriv, self).decrypt_keyblob(passphrase)',
+  '        if self.s2k:\n            self.encbytes = packet\n\n        else:\n            self.x = MPI(packet)\n\n        if self.s2k.usage in (0, 255):\n            cks = packet[:2]\n            del packet[:2]\n            self.chksum = cks\n\n    def decrypt_keyblob(self, passphrase):\n        kb = super(ElGPriv, self).decrypt_keyblob(passphrase)', 'C08.b')
+M('C08', 'literal-append-len-chars', PK, '        _bytes += bytearray([len(filename)])\n        _bytes += filename',
+  '        _bytes.append(len(self.filename))\n        _bytes.extend(filename)', 'C08.e')
 M('C08', 'onepass-pop-reads-swapped', PK, '        self.sigtype = packet[0]\n        del packet[0]\n\n        self.halg = packet[0]\n        del packet[0]\n\n        self.pubalg = packet[0]\n        del packet[0]\n\n        self.signer = packet[:8]\n        del packet[:8]\n\n        self.nested = (packet[0] == 1)\n        del packet[0]',
   '        self.sigtype = packet.pop(0)\n        self.pubalg = packet.pop(0)\n        self.halg = packet.pop(0)\n\n        self.signer = packet[:8]\n        del packet[:8]\n\n        self.nested = (packet.pop(0) == 1)', 'C08.c')
 M('C08', 'uri-bytes-constructor-utf16', SS, '        _bytes += self.uri.encode()\n        return _bytes',
@@ -749,6 +753,12 @@ T('C08', 'twin-hashed-area-peek-spelling', FL, '        hl = self.bytes_to_int(p
   '        count_octets = packet[:2]\n        hl = self.bytes_to_int(count_octets)\n        area_end = hl + 2\n        hashed_raw = packet[:area_end]\n        del packet[:2]\n')
 T('C08', 'twin-skesk-remainder-locals', PK, '        ctend = self.header.length - len(self.s2k)\n        self.ct = packet[:ctend]\n        del packet[:ctend]\n',
   '        s2k_len = len(self.s2k)\n        total = self.header.length\n        self.ct = packet[:total - s2k_len]\n        del packet[:total - s2k_len]\n')
+T('C08', 'twin-elg-alias-guard-clause', FL, '        if not self.s2k:\n            self.x = MPI(packet)\n\n            if self.s2k.usage == 0:\n                self.chksum = packet[:2]\n                del packet[:2]\n\n        else:\n            self.encbytes = packet\n\n    def decrypt_keyblob(self, passphrase):\n        kb = super(ElGPriv, self).decrypt_keyblob(passphrase)',
+  '        if self.s2k:\n            self.encbytes = packet\n            return\n\n        self.x = MPI(packet)\n\n        if self.s2k.usage == 0:\n            cks = packet[:2]\n            del packet[:2]\n            self.chksum = cks\n\n    def decrypt_keyblob(self, passphrase):\n        kb = super(ElGPriv, self).decrypt_keyblob(passphrase)')
+T('C08', 'twin-literal-writer-append-extend', PK, '        _bytes += bytearray([len(filename)])\n        _bytes += filename',
+  '        _bytes.append(len(filename))\n        _bytes.extend(filename)')
+T('C08', 'twin-trust-two-targets-reordered', PK, '        t = self.bytes_to_int(packet[:2])\n        del packet[:2]\n\n        self.trustlevel = t\n        self.trustflags = t',
+  '        raw = packet[:2]\n        del packet[:2]\n        value = self.bytes_to_int(raw)\n\n        self.trustflags = value\n        self.trustlevel = value')
 T('C08', 'twin-onepass-pop-reads', PK, '        self.sigtype = packet[0]\n        del packet[0]\n\n        self.halg = packet[0]\n        del packet[0]\n\n        self.pubalg = packet[0]\n        del packet[0]\n\n        self.signer = packet[:8]\n        del packet[:8]\n\n        self.nested = (packet[0] == 1)\n        del packet[0]',
   '        self.sigtype = packet.pop(0)\n        self.halg = packet.pop(0)\n        self.pubalg = packet.pop(0)\n\n        self.signer = packet[:8]\n        del packet[:8]\n\n        self.nested = (packet.pop(0) == 1)')
 T('C08', 'twin-onepass-setattr-loop', PK, '        self.sigtype = packet[0]\n        del packet[0]\n\n        self.halg = packet[0]\n        del packet[0]\n\n        self.pubalg = packet[0]\n        del packet[0]\n\n        self.signer = packet[:8]\n        del packet[:8]\n\n        self.nested = (packet[0] == 1)\n        del packet[0]',
